@@ -290,7 +290,15 @@ def body(ctx, case):
                     kw["integrals"] = integrals
                 if nfrozen and ccobj is None:
                     kw["norb_frozen"] = nfrozen
+                if ccobj is not None:
+                    # preparing twice from the same coupled-cluster object (e.g. again with another threshold) must not change the
+                    # object's amplitudes nor what is written the second time: the read-back below is that of the second call
+                    amp0 = [np.array(a, copy=True) for a in (list(ccobj.t1) + list(ccobj.t2) if isinstance(ccobj.t1, (tuple, list)) else [ccobj.t1, ccobj.t2])]
+                    pyscf_interface.prep_afqmc(ccobj, **kw)
                 pyscf_interface.prep_afqmc(ccobj if ccobj is not None else mf, **kw)
+                if ccobj is not None:
+                    amp1 = list(ccobj.t1) + list(ccobj.t2) if isinstance(ccobj.t1, (tuple, list)) else [ccobj.t1, ccobj.t2]
+                    amp_changed = max(float(np.max(np.abs(np.asarray(a1) - a0))) if np.asarray(a1).size else 0.0 for a0, a1 in zip(amp0, amp1))
                 opts = {"trial": trial_opt, "walker_type": case_wt, "n_walkers": 2, "seed": 3}
                 ham_data, ham, prop, trial, wave_data, sampler, observable, options, MPI = mpi_jax._prep_afqmc(dict(opts))
                 ham_data = ham.build_measurement_intermediates(ham_data, trial, wave_data)
@@ -305,6 +313,9 @@ def body(ctx, case):
         except Exception as e:
             ctx.fail(f"interface:raised-{type(e).__name__}:{m}:frozen={nfrozen}:basis={case['basis_choice']}", case, f"{type(e).__name__}: {str(e)[:300]}")
             return
+    if ccobj is not None:
+        # informational only: the statement is about what is written, which the energy clause below decides for the second call
+        ctx.count("cc-object-amplitudes-" + ("changed-by-prep" if amp_changed > 0 else "untouched-by-prep"))
     e_est = float(pd["e_estimate"])
     tol = 2 * chol_cut * max(4, sum(nelec)) ** 2 + (2e-8 if ccobj is None else 2e-7)
     ref = ccobj.e_tot if ccobj is not None else mf.e_tot
